@@ -20,7 +20,8 @@ class Ctx:
     def __init__(self, pid, tier, seed):
         self.id, self.tier, self.seed = pid, tier, seed
         self.t0 = time.time()
-        self.build = os.path.join(VERIF, "build", pid)
+        self.alt = os.path.realpath(REPO) != "/repo"     # scratch-worktree mode: nothing under evidence/ or replays/ is touched
+        self.build = os.path.join(VERIF, "build", pid + ("-alt-" + hashlib.md5(os.path.realpath(REPO).encode()).hexdigest()[:6] if self.alt else ""))
         os.makedirs(self.build, exist_ok=True)
         os.makedirs(os.path.join(VERIF, "build", "bin"), exist_ok=True)
         os.makedirs(os.path.join(VERIF, "replays"), exist_ok=True)
@@ -187,7 +188,7 @@ class Ctx:
         return res
 
     def replay_path(self, tag):
-        return os.path.join(VERIF, "replays", "%s_%s_%s.json" % (self.id, tag, self.seed))
+        return os.path.join(self.build if self.alt else os.path.join(VERIF, "replays"), "%s_%s_%s.json" % (self.id, tag, self.seed))
 
     def violation(self, replay_obj, tag="v", no_input=False, sig=None):
         """Registers a violation unless its signature is a listed known finding."""
